@@ -392,7 +392,7 @@ class Tensor:
         if not self.matches_shape(grad):
             raise RuntimeError(f"Attempt to assign grad ({grad.shape}) to  a Tensor ({self.shape}) that has a different shape")
         grad_data = grad.data.astype(self.dtype) # own copy, in the dtype of this tensor
-        if self.is_leaf and self._grad is not None: self._grad = self._grad + grad_data
+        if self.is_leaf and self._grad is not None: self._grad = np.asarray(self._grad + grad_data) # 0-d + 0-d is a NumPy scalar: keep an array buffer
         else: self._grad = grad_data
         for i, node in enumerate(reversed(ordered_nodes)):
             if node.grad_fn is not None:
